@@ -127,7 +127,7 @@ CLAIMS = {
         "strict monotonicity, reaching the domain height, wind vector at zm, constant direction, Kz>0 and the similarity formula (independent phi_h), the MOSTM split, the "
         "ustar->z0->ustar round trip; psi(0)=0, phi(0)=1; x psi'(x) = phi_m(x)-1 by running the real psi on dual numbers; agreement with the reference model's copies.",
         ref="7/C09", note="Trusted: z3; exp/log/sqrt/pow/atan uninterpreted with instantiated laws (a proof holds for the true functions; sat answers are replayed); queries go through a portfolio "
-        "(all law instances / lazy instantiation / disjuncts one by one); 2 layers and grids up to 4 nodes for every closure (thorough: CONSTANT closure and the grid jobs with 3-4 layers, up to 7 nodes), longer grids cut and counted; "
+        "(all law instances / lazy instantiation / disjuncts one by one); 2 layers and grids up to 4 nodes for every closure (quick leaves the two ustar-forced MOSTM cases to the thorough tier, which also adds the CONSTANT closure and the grid jobs with 3-4 layers, up to 7 nodes), longer grids cut and counted; "
         "stretch and domain_height symbolic for the grid clauses; one (case, path, obligation) triple undecided within the budget is outside the claim and listed in the evidence (0.2 of DESIGN.md)."),
     "C17": dict(
         technique="exact/UF symbolic execution of latlon_to_xy / xy_to_latlon / configuration building (z3 NRA) with a path explorer",
